@@ -1211,7 +1211,7 @@ def gen_start(rnd, kind, nchoices=(1, 2, 3, 3, 4, 5, 6), tchoices=(1, 1, 2, 2, 3
 
 def gen_history(rnd, tier):
     _name_counter[0] = 0
-    ncases = 4000 if tier == "quick" else 50000
+    ncases = 4000 if tier == "quick" else 40000
     maxlen = 5 if tier == "quick" else 9
     for _ in range(ncases):
         case, m = gen_start(rnd, "history")
@@ -1224,8 +1224,26 @@ def gen_history(rnd, tier):
         yield case
 
 
+def minimal_inplace():
+    """smallest instances of each in-place / class-level operation, all three classes"""
+    for cls in CLASSES:
+        base = dict(kind="inplace", cls=cls, t=1, pre=[])
+        yield dict(base, raw=[[1.0], [3.0]], last=dict(op="concat", parts=[dict(raw=[[10.0], [20.0]])], self_at=0, via="taxa"))
+        yield dict(base, raw=[[1.0], [3.0]], last=dict(op="concat", parts=[], self_at=0, via="generic0"))
+        yield dict(base, raw=[[1.0], [3.0]], last=dict(op="append", vals=[[5.0]], via="taxa"))
+        yield dict(base, raw=[[1.0], [3.0]], last=dict(op="append", vals=[[5.0]], via="generic0", wrap=True))
+        yield dict(base, raw=[[1.0], [3.0]], last=dict(op="incorp", obj=0, vals=[[5.0]], via="taxa"))
+        yield dict(base, raw=[[1.0], [3.0]], last=dict(op="incorp", obj=[1], vals=[[5.0]], via="generic-2", wrap=True))
+        yield dict(base, raw=[[1.0], [3.0], [8.0]], last=dict(op="remove", obj=2, via="taxa"))
+        yield dict(base, raw=[[1.0], [3.0], [8.0]], last=dict(op="remove", obj=[0, 1], via="generic0"))
+        yield dict(base, t=2, raw=[[1.0, None], [3.0, 4.0], [8.0, 6.0]], taxa=["a", "b", "c"], grp=[1, 0, 1],
+                   trait=["y1", "y2"], last=dict(op="remove", obj={"slice": [None, 1, None]}, via="taxa"))
+
+
 def gen_inplace(rnd, tier):
     _name_counter[0] = 0
+    for case in minimal_inplace():
+        yield case
     ncases = 3500 if tier == "quick" else 40000
     for _ in range(ncases):
         case, m = gen_start(rnd, "inplace")
@@ -1260,6 +1278,10 @@ def gen_inplace(rnd, tier):
 
 
 def gen_scaled(rnd, tier):
+    for c in CONST_OTHER + CONST_DYADIC:
+        for n in (1, 2, 3, 6):
+            yield dict(kind="scaled", shape=[n, 1], mat=[c] * n, steps=[dict(op="rescale", inplace=True),
+                                                                         dict(op="unscale", inplace=False)])
     ncases = 4500 if tier == "quick" else 50000
     for _ in range(ncases):
         t = rnd.choice([1, 2, 2, 3, 4])
@@ -1308,7 +1330,7 @@ def u_ring_construct(ctx):
 
 
 @unit(P, U_HISTORY, "R", bounded=True,
-      note="bounded: 4000 / 50000 seeded histories of <=5 / <=9 steps (select, delete, insert, adjoin via *_taxa and "
+      note="bounded: 4000 / 40000 seeded histories of <=5 / <=9 steps (select, delete, insert, adjoin via *_taxa and "
            "the axis dispatchers, reorder/sort/group) on matrices of <=6 taxa, <=3 traits")
 def u_ring_history(ctx):
     ctx.rule = ("seeded random operation sequences, each step valid for the current list model (indices with duplicates, "
